@@ -725,6 +725,6 @@ def quantity_to(st, q, unit, equivalencies=None):
         from .units import C_SI
         L, T = {'m': 1}, {'s': -1}
         if q.unit.dims == L and unit.dims == T or q.unit.dims == T and unit.dims == L:
-            k = arith('/', arith('/', C_SI, q.unit.scale), unit.scale)
+            k = arith('/', arith('/', Sc(C_SI), q.unit.scale), unit.scale)
             return Quantity(elementwise(st, lambda x: arith('/', k, x), q.value), unit)
     raise Raised('UnitConversionError', '%s -> %s' % (q.unit.name, unit.name))
